@@ -66,7 +66,7 @@ func solveBatch(c *FnCtx, obls []*Obligation, timeoutMs int) {
 	}
 	sp := solvers(timeoutMs)[1]
 	start := time.Now()
-	out, _ := runSolver(sp, b.String(), time.Duration(len(todo)*timeoutMs+5000)*time.Millisecond)
+	out, _ := runSolver(sp, assemble(b.String()), time.Duration(len(todo)*timeoutMs+5000)*time.Millisecond)
 	el := time.Since(start).Milliseconds()
 	lines := strings.Split(strings.TrimSpace(out), "\n")
 	ok := len(lines) >= len(todo)
